@@ -7,6 +7,7 @@ def spec(tier):
     q = tier == "quick"
     T = 280 if q else 2500
     obs = [XH("S.scope_lines", F, "scope_lines", 120 if q else 600, what="add_scope/end_scope/close_file/get_inner_scope with FREE symbolic line numbers (module > subroutine > block, unbounded positive gaps, any query line): start/end lines, parents, innermost scope")]
+    obs += [XH("S.symbol_lines", F, "symbol_lines", 200 if q else 900, what="serve_document_symbols TRACED on an index built with the real constructors and FREE symbolic line numbers: kinds, containers and 0-based start/end lines of module, type, component and procedure")]
     obs += parts("G.outline", F, "outline", 16, T, path_timeout=200,
                  what="generated programs (module: var/type+binding/3 interface forms/2 procedures with each of 11 executable items nested in each other/internal procedure; second unit program|ext sub|ext fun|submodule; 4 END variants; blank/comment gaps): documentSymbol has every unit and direct procedure/type/named interface exactly once with kind, container, start and END lines; type members under the type; no error diagnostics")
     obs += parts("G.ws_symbols", F, "ws_symbols", 8, T, path_timeout=200,
